@@ -286,6 +286,13 @@ def binop(I, op, a, b):
             return concat(a, b, a.kind)
         if o == "*" and isinstance(b, VInt) and b.c is not None and a.is_concrete():
             return VBytes.lit(a.concrete() * b.c, a.kind)
+        if o == "*" and isinstance(b, VInt) and isinstance(a.length(), int) and a.length() == 1:
+            # one byte repeated n times (n symbolic): a view of a constant array, empty for n <= 0
+            from .values import View, Lit, _b8
+            seg = a.segs[0]
+            b0 = _b8(seg.bs[0]) if isinstance(seg, Lit) else z3.Select(seg.base, seg.off)
+            n = b.as_int()
+            return VBytes([View(z3.K(z3.IntSort(), b0), 0, z3.If(n > 0, n, 0))], a.kind)
         I.raise_py("builtins.TypeError", f"unsupported operand for bytes {o}")
     if isinstance(a, VStr):
         if o == "+" and isinstance(b, VStr):
@@ -519,6 +526,8 @@ def compare(I, op, a, b) -> VBool:
             I.raise_py("builtins.TypeError", "ordering comparison with None")
         raise Unsupported("ordering of non-numeric values")
     a, b = _to_intlike(I, a), _to_intlike(I, b)
+    if not isinstance(a, (VInt, VFloat, VBool)) or not isinstance(b, (VInt, VFloat, VBool)):
+        raise Unsupported(f"ordering comparison of {type(a).__name__} and {type(b).__name__}")
     if isinstance(a, VFloat) or isinstance(b, VFloat):
         if getattr(a, "c", None) is not None and getattr(b, "c", None) is not None:
             return mkbool({"<": a.c < b.c, "<=": a.c <= b.c, ">": a.c > b.c, ">=": a.c >= b.c}[o])
